@@ -9,17 +9,18 @@ import (
 	_ "time/tzdata"
 
 	"go.lstv.dev/util/date"
+	"verif/libdefaults"
 	"verif/mc"
 	"verif/oracle"
 )
 
 type arg struct {
-	Y      int64 `json:"y"`
-	M      int   `json:"m"`
-	D      int   `json:"d"`
-	Basic  bool  `json:"basic"`
-	MaxLen int   `json:"max_input_length"`
-	Heavy  bool  `json:"heavy"` // also json/xml/containers
+	Y      int64  `json:"y"`
+	M      int    `json:"m"`
+	D      int    `json:"d"`
+	Basic  bool   `json:"basic"`
+	MaxLen int    `json:"max_input_length"`
+	Heavy  bool   `json:"heavy"`                // also json/xml/containers
 	Zone   string `json:"time_local,omitempty"` // the process's local zone during the call ("" = unchanged)
 }
 
@@ -42,13 +43,14 @@ type jsonBox struct {
 
 func reset() {
 	time.Local = defaultLocal
-	date.MaxInputLength = 10
-	date.Formatter = date.DefaultFormatter
-	date.Parser = date.DefaultParser[[]byte]
+	libdefaults.Date()
 }
 
 func setup(a arg) {
 	date.MaxInputLength = a.MaxLen
+	if a.MaxLen == -1 { // default configuration: whatever the library starts with (the oracle assumes the documented 10)
+		date.MaxInputLength = libdefaults.DateMaxInputLength
+	}
 	time.Local = defaultLocal
 	if a.Zone != "" {
 		if loc, err := time.LoadLocation(a.Zone); err == nil {
@@ -101,6 +103,9 @@ func probe(a arg) (string, string) {
 		if s := fmt.Sprint(d); s != want {
 			return "sprint", fmt.Sprintf("Sprint = %q want %q", s, want)
 		}
+	}
+	if a.MaxLen == -1 {
+		a.MaxLen = 10
 	}
 	fits := a.MaxLen == 0 || len(want) <= a.MaxLen
 	// ---- input paths on the produced text
@@ -281,8 +286,8 @@ func main() {
 		}
 		heavyAll := !r.Quick()
 		r.Phase("years 0000-9999, all days, both formats, MaxInputLength=10", "complete; json/xml/container paths on "+map[bool]string{true: "all days", false: "day 1 and days>=28 of every month"}[heavyAll], func() {
-			setup(arg{MaxLen: 10})
-			r.Parallel(10000, 8, func(w *mc.W, y int64) { perYear(w, y, 10, heavyAll) })
+			setup(arg{MaxLen: -1})
+			r.Parallel(10000, 8, func(w *mc.W, y int64) { perYear(w, y, -1, heavyAll) })
 			r.Sample("date", arg{Y: 2024, M: 2, D: 29, Basic: true, MaxLen: 10, Heavy: true})
 		})
 		for _, z := range mc.Zones {
